@@ -40,7 +40,8 @@ def run(ctx):
             "confirm:PreconditionsAreNotMet", "request:InvalidArgument"]
     for k in need:
         if not cnt.get(k):
-            raise vlib.ToolError("vacuity: no event of class " + k)
+            if not ctx.violations:
+                raise vlib.ToolError("vacuity: no event of class " + k)
     cls = {"mfv_with_remainder": sum(1 for e in allev if e["op"] == "mfv" and e["ok"] and e["n"] and
                                      e["out"]["value"] % max(e["out"]["cost"], 1) != 0),
            "mint_crossing_steps": sum(1 for e in allev if e["post"]["steps"] > e["pre"]["steps"]),
@@ -48,7 +49,8 @@ def run(ctx):
            "rank_changes": sum(1 for e in allev if [u["rank"] for u in e["pre"]["users"]] != [u["rank"] for u in e["post"]["users"]])}
     for k, v in cls.items():
         if v == 0:
-            raise vlib.ToolError("vacuity: no event of class " + k)
+            if not ctx.violations:
+                raise vlib.ToolError("vacuity: no event of class " + k)
     ctx.cov["classes"] = dict(cnt, **cls)
     ctx.distinct += len({json.dumps([e["cfg"], e["pre"], e["op"], e["u"], e["n"]], sort_keys=True) for e in allev})
     ctx.assumptions += ["rank thresholds are positive (a threshold of 0 would already apply to a fresh, never updated user)",
